@@ -428,7 +428,8 @@ class Impl:
         except (RuntimeError, AssertionError) as e:
             obs = "E:RT" if isinstance(e, RuntimeError) else "E:AS"
         # ---- property checks that look at the state after the operation
-        if obs.startswith("D:") and self.pos > pos_before and self.coro is None and self.exact and not self.proto.chunked:
+        if obs.startswith("D:") and self.pos > pos_before and self.coro is None and self.exact and not self.proto.chunked \
+                and not self.eof_fed:     # after EOF nothing is resumed any more (b336e09); feed_eof resumed
             low = s.get_read_buffer_limits()[0]
             buffered = len(self.expected) - self.pos
             if buffered < low and self.paused():
